@@ -65,7 +65,11 @@ func genWQ(g *genCtx) {
 			continue
 		}
 		if (profile == "C05" || profile == "C16") && t%4 == 3 {
-			genSetPrioStorm(g, r)
+			if t%8 == 3 {
+				genDeqStorm(g, r)
+			} else {
+				genSetPrioStorm(g, r)
+			}
 			continue
 		}
 		W, L := r.rangeIn(1, maxW), r.rangeIn(1, maxL)
@@ -217,6 +221,51 @@ func genStopBreakStorm(g *genCtx, r *rng) {
 	if r.chance(1, 2) {
 		g.op("enq prio=1 name=%d adj=0", n) // submitted afterwards: never runs
 		n++
+	}
+	for i := 0; i < n+2; i++ {
+		g.op("rel pick=0 err=0")
+	}
+	g.op("final")
+}
+
+// genDeqStorm: one worker, 6-9 waiting items of varied priorities and no adjust functions (nothing rebuilds the heap);
+// items are dequeued from the middle of the queue, and every dispatch that follows must still pick the best of what is left.
+func genDeqStorm(g *genCtx, r *rng) {
+	L := r.rangeIn(7, 10)
+	g.op("new W=1 L=%d", L)
+	n := 0
+	g.op("enq prio=1 name=%d adj=0", n)
+	n++
+	g.op("enq prio=1 name=%d adj=0", n)
+	n++
+	waiting := []int{}
+	if r.chance(1, 2) {
+		// a heap whose left subtree is heavy and whose right subtree is light, laid out in arrival order: removing a leaf on
+		// the left moves the last (light) leaf under a heavy parent — the one case in which the moved item has to travel up
+		p1, p2 := 10+r.intn(3), 2+r.intn(2)
+		for _, pr := range []int{1, p1, p2, p1 + 1 + r.intn(3), p1 + 1 + r.intn(3), p2 + 3 + r.intn(2), p2 + 1} {
+			g.op("enq prio=%d name=%d adj=0", pr, n)
+			waiting = append(waiting, n)
+			n++
+		}
+		g.op("deq id=%d", waiting[3+r.intn(2)])
+		for i := 0; i < n+2; i++ {
+			g.op("rel pick=0 err=0")
+		}
+		g.op("final")
+		return
+	}
+	for i, k := 0, r.rangeIn(6, L-1); i < k; i++ {
+		g.op("enq prio=%d name=%d adj=0", r.rangeIn(1, 12), n)
+		waiting = append(waiting, n)
+		n++
+	}
+	for round := 0; round < 3 && len(waiting) > 2; round++ {
+		k := 1 + r.intn(len(waiting)-2) // not the first, not the last
+		g.op("deq id=%d", waiting[k])
+		waiting = append(waiting[:k:k], waiting[k+1:]...)
+		g.op("rel pick=0 err=0")
+		g.op("rel pick=0 err=0")
 	}
 	for i := 0; i < n+2; i++ {
 		g.op("rel pick=0 err=0")
